@@ -243,8 +243,9 @@ def oracle_sequence(case, res, cfg):
                 continue
             inh, desc = op.get("inherited", False), op.get("descendants", False)
             mr, lg = op.get("marking_ref", True), op.get("lang", True)
-            if inh and not mr:
-                continue    # whether object markings count as `marking_ref` markings is not said by the property
+            # inherited=True with marking_ref=False: the object-level markings are still reported.  The docstrings
+            # say `inherited` includes object level markings and `marking_ref=False` excludes granular markings
+            # "that use the marking_ref property"; object_marking_refs is not that property (ref_get does the same).
             exp = ref_get(ref.P, ref.O, sels, inh, desc, mr, lg)
             if got != exp:
                 finding = None
@@ -396,7 +397,8 @@ def gen_ops(rng, valid, invalid, st, v21_or_dict, is_obj, max_ops):
     P = pairs_of(st["gms"])
     O = set(st["omr"] or [])
     ops = []
-    markings = list(G.REF_MARKINGS) + (list(G.LANG_MARKINGS) if v21_or_dict else [])
+    # language markings do not exist in 2.0 objects (the constructor refuses them): tried now and then only
+    markings = list(G.REF_MARKINGS) + (list(G.LANG_MARKINGS) if (v21_or_dict or rng.random() < 0.15) else [])
     top = [s for s in valid if "." not in s]
     # selectors that are related on the tree or by name prefix get extra weight
     related = [s for s in valid if any(t != s and (t.startswith(s) or s.startswith(t)) for t in valid)]
@@ -438,7 +440,7 @@ def gen_ops(rng, valid, invalid, st, v21_or_dict, is_obj, max_ops):
             sels = pick_sels()
             m = pick_marking(sels)
             op = {"op": "add", "marking": m, "selectors": sels, "via": via(),
-                  "marking_obj": sels is None and rng.random() < 0.3}
+                  "marking_obj": rng.random() < 0.25}
             ops.append(op)
             if sels is None:
                 O |= set(aslist(m))
